@@ -98,6 +98,8 @@ type Block struct {
 	Flags    map[string]bool // pure, lemma, trusted, overflow, may-diverge, panics-never, opaque, inline
 	Modifies []string
 	Fuel     int
+	PanicsAssumed string
+	LoopInvAll []*Clause // invariants of every loop (rules)
 	IsRule   bool
 	Exclude  map[string]bool
 	PropKinds map[string][]string // optional obligation-kind filter per property
@@ -457,6 +459,13 @@ func parseBlocks(fset *token.FileSet, path string, src []byte, pkgPath string) (
 				}
 				cl.Index = len(cur.Post)
 				cur.Post = append(cur.Post, cl)
+			case "loopinv":
+				cl, err := mk(KInvariant, rest, -2)
+				if err != nil {
+					return nil, err
+				}
+				cl.Index = len(cur.LoopInvAll)
+				cur.LoopInvAll = append(cur.LoopInvAll, cl)
 			case "decreases":
 				cl, err := mk(KDecreases, rest, -1)
 				if err != nil {
@@ -517,7 +526,10 @@ func parseBlocks(fset *token.FileSet, path string, src []byte, pkgPath string) (
 					return nil, fmt.Errorf("%s:%d: unknown loop clause %q", path, line, sub)
 				}
 			case "panics":
-				if strings.TrimSpace(rest) == "never" {
+				if strings.HasPrefix(strings.TrimSpace(rest), "assumed-unreachable") {
+					cur.Flags["panics-assumed"] = true
+					cur.PanicsAssumed = strings.TrimSpace(strings.TrimPrefix(strings.TrimSpace(rest), "assumed-unreachable"))
+				} else if strings.TrimSpace(rest) == "never" {
 					cur.Flags["panics-never"] = true
 				} else if strings.HasPrefix(strings.TrimSpace(rest), "only if") {
 					cl, err := mk(KPanicsIf, strings.TrimSpace(strings.TrimPrefix(strings.TrimSpace(rest), "only if")), -1)
@@ -568,7 +580,7 @@ func parseBlocks(fset *token.FileSet, path string, src []byte, pkgPath string) (
 					}
 				}
 				cur.Flags["has-modifies"] = true
-			case "pure", "lemma", "trusted", "overflow", "may-diverge", "opaque", "inline", "assume-contract", "sweep", "nosafety":
+			case "post-all", "pure", "lemma", "trusted", "overflow", "may-diverge", "opaque", "inline", "assume-contract", "sweep", "nosafety":
 				cur.Flags[word] = true
 			default:
 				return nil, fmt.Errorf("%s:%d: unknown clause %q", path, line, word)
@@ -698,6 +710,9 @@ func synthesize(blocks []*Block, counter *int) string {
 			emit(blk, cl, nil, nil, !blk.IsRule, "bool")
 		}
 		for _, cl := range blk.PanicsIf {
+			emit(blk, cl, nil, nil, false, "bool")
+		}
+		for _, cl := range blk.LoopInvAll {
 			emit(blk, cl, nil, nil, false, "bool")
 		}
 		if blk.Dec != nil {
@@ -941,7 +956,7 @@ func Load(repo string, patterns []string) (*Loaded, error) {
 			if err := bindClauses(sp, b); err != nil {
 				return nil, err
 			}
-			for _, cl := range append(append(append([]*Clause{}, b.Pre...), b.Callsite...), b.Post...) {
+			for _, cl := range append(append(append(append([]*Clause{}, b.Pre...), b.Callsite...), b.Post...), b.LoopInvAll...) {
 				cl.RecvOnly = true
 			}
 			continue
@@ -994,6 +1009,7 @@ func bindClauses(sp *ssa.Package, b *Block) error {
 	cls = append(cls, b.Post...)
 	cls = append(cls, b.PanicsIf...)
 	cls = append(cls, b.Callsite...)
+	cls = append(cls, b.LoopInvAll...)
 	for _, cl := range cls {
 		f := sp.Func(cl.SynName)
 		if f == nil {
@@ -1048,6 +1064,14 @@ func expandRules(ld *Loaded) error {
 			if eb := ld.ByFn[fn]; eb != nil {
 				eb.Pre = append(append([]*Clause{}, r.Pre...), eb.Pre...)
 				eb.Callsite = append(eb.Callsite, r.Callsite...)
+				eb.LoopInvAll = append(eb.LoopInvAll, r.LoopInvAll...)
+				if r.Flags["post-all"] {
+					// the rule's postconditions also hold for explicitly specified methods
+					eb.Post = append(eb.Post, r.Post...)
+					for i := range eb.Post {
+						eb.Post[i].Index = i
+					}
+				}
 				for _, p := range r.Props {
 					if !contains(eb.Props, p) {
 						eb.Props = append(eb.Props, p)
@@ -1061,7 +1085,7 @@ func expandRules(ld *Loaded) error {
 				}
 				continue
 			}
-			nb := &Block{Header: "func (" + r.RecvName + " " + r.RecvType + ") " + fn.Name(), Pkg: r.Pkg, PkgName: r.PkgName, File: r.File, Line: r.Line, Props: r.Props, Pre: r.Pre, Post: r.Post, Callsite: r.Callsite, Loops: map[int]*LoopSpec{}, Flags: map[string]bool{}, RecvName: r.RecvName, RecvType: r.RecvType, FuncName: fn.Name(), Target: fn, FromRule: r, PropKinds: r.PropKinds}
+			nb := &Block{Header: "func (" + r.RecvName + " " + r.RecvType + ") " + fn.Name(), Pkg: r.Pkg, PkgName: r.PkgName, File: r.File, Line: r.Line, Props: r.Props, Pre: r.Pre, Post: r.Post, Callsite: r.Callsite, LoopInvAll: r.LoopInvAll, Loops: map[int]*LoopSpec{}, Flags: map[string]bool{}, RecvName: r.RecvName, RecvType: r.RecvType, FuncName: fn.Name(), Target: fn, FromRule: r, PropKinds: r.PropKinds}
 			for k, v := range r.Flags {
 				nb.Flags[k] = v
 			}
